@@ -174,4 +174,4 @@ def run(ctx):
             al = F.aliases.get(alias)
             args = [x.get("path") for x in (al or {}).get("args", [])]
             ctx.oblige("C07|flavour|" + alias, al is not None and args == [a_ty, e_ty], "%s is instantiated with %s" % (alias, args), cfg=cfg)
-        ctx.floor("append sites", n_sites, 9, cfg=cfg)
+        ctx.floor("append sites", n_sites, 3, cfg=cfg)
